@@ -1286,6 +1286,7 @@ pub fn aba(seed: u64, cases: usize, out: &mut Sink) {
             let mut chain: Vec<Overlay> = vec![];
             let mut fw: Vec<Vec<(Key, Vec<u8>)>> = vec![];
             let mut wx_early: Option<Vec<(Key, Vec<u8>)>> = None;
+            let mut superseded_refused = false;
             if use_overlay {
                 let n = if stale_mid { chain_len + 1 } else { chain_len };
                 for j in 0..n {
@@ -1296,7 +1297,16 @@ pub fn aba(seed: u64, cases: usize, out: &mut Sink) {
                     }
                     let w = mk(&mut crng, 1, 2, &mut key);
                     let s = db.begin_session(SessionParams::default().overlay(chain.iter().rev()).map_err(|e| format!("{e:?}"))?);
-                    let f = s.finish(w.iter().map(|(k, v)| (*k, KeyReadWrite::Write(Some(v.clone())))).collect()).map_err(|e| format!("finish {e:#}"))?;
+                    let f = match s.finish(w.iter().map(|(k, v)| (*k, KeyReadWrite::Write(Some(v.clone())))).collect()) {
+                        Ok(f) => f,
+                        // a session on a chain whose base has been superseded may (since the repair of F23: must) be refused: the chain
+                        // goes on without this overlay; if it is NOT refused the root oracle below decides
+                        Err(e) if stale_mid && j + 1 == n && format!("{e:#}").contains("not based on the committed state") => {
+                            superseded_refused = true;
+                            continue;
+                        }
+                        Err(e) => return Err(format!("finish {e:#}")),
+                    };
                     chain.push(f.into_overlay());
                     fw.push(w);
                 }
@@ -1316,7 +1326,7 @@ pub fn aba(seed: u64, cases: usize, out: &mut Sink) {
                     wx
                 }
             };
-            script.push_str(&format!("X={} stale_mid={stale_mid} ", wx.len()));
+            script.push_str(&format!("X={} stale_mid={stale_mid} refused={superseded_refused} ", wx.len()));
             db.rollback(1).map_err(|e| format!("rollback {e:#}"))?;
             // F accepted
             if let Some(f) = fin {
